@@ -229,13 +229,33 @@ class Engine:
             body = ev.ev(g.define, st, spec=True)
             body = coerce(body, rty) if body.ty != rty else body
             app = f(*names)
-            self.global_axioms.append(('ghost:%s/def' % name, z3.ForAll(names, app == body.term, patterns=[app])))
+            recursive = any(d.eq(f) for d in _decls_in(body.term))
+            # a recursive definition unfolds itself: a positive weight makes deep unfoldings expensive, so that E-matching
+            # gives up (unknown) on an unprovable goal instead of unfolding until the timeout
+            self.global_axioms.append(('ghost:%s/def' % name, z3.ForAll(names, app == body.term, patterns=[app],
+                                                                         weight=(6 if recursive else 1))))
             if not hasattr(self, 'ghost_defs'):
                 self.ghost_defs = {}
             self.ghost_defs[f.name()] = (names, body.term)
 
     def find_contract(self, qual):
         return self.sc.contracts.get(qual)
+
+
+def _decls_in(t, seen=None, out=None):
+    seen = set() if seen is None else seen
+    out = [] if out is None else out
+    if t.get_id() in seen:
+        return out
+    seen.add(t.get_id())
+    if z3.is_quantifier(t):
+        _decls_in(t.body(), seen, out)
+    elif z3.is_app(t):
+        if t.decl().kind() == z3.Z3_OP_UNINTERPRETED:
+            out.append(t.decl())
+        for c in t.children():
+            _decls_in(c, seen, out)
+    return out
 
 
 BUILTIN_EXC = ('KeyError', 'IndexError', 'Exception', 'KeyboardInterrupt', 'ValueError', 'TypeError',
